@@ -232,33 +232,27 @@ theorem handlers_counterexample : ¬ no_ub_handlers_full := by
   reference from every child still linked to it, also when the application has already dropped that child's creation
   reference and the child lives on a reference the library itself holds.  The references the library holds across a
   handler are those of the frames of `_handle_key` / `_handle_mouse` (the window itself and the counted snapshot of
-  its children) and the counted reference `_handle_mouse` returns for the window that claimed the event.  The frames'
-  references obey a stack discipline - whenever a frame holds a child, a frame holds its parent, so a window that dies
-  has no child the frames hold - the returned claim does not (it outlives the frame of the claiming window's parent).
-  Hence the strongest statement that is true of the code as it stands:
+  its children), the counted reference `_handle_mouse` returns for the window that claimed the event, and the frame
+  `on_term_mouse` opens directly on the drag source.  The frames of a walk from the root window obey a stack discipline
+  - whenever a frame holds a child, a frame holds its parent, so a window that dies has no child the frames hold -; the
+  returned claim does not (it outlives the frame of the claiming window's parent), nor does the frame on the drag
+  source (nobody holds its parent).  Hence the strongest statements that are true of the code as it stands:
 
   * handlers bound on the **terminal** (they run between the frames, under the entry point's reference to the terminal
     only) may drop anything, `tickit_window_unref` of any window and `tickit_term_unref` included: **proved**,
     `top_no_ub` below;
-  * **key** events may be delivered to window handlers with any actions: `no_ub_key_handlers_unref` (statement, open);
-  * **mouse** events may be delivered to window handlers with any actions as long as no mouse handler claims the event
-    (returns true), or all mouse handlers free nothing: `no_ub_mouse_handlers_unref` (statement, open); with handlers
-    that free nothing it is **proved** (`no_ub_handlers_keeping`); a claiming mouse handler together with handlers that
-    drop the claiming window and its parent is the known finding (`handlers_counterexample`).
+  * **key** events may be delivered to window handlers with any actions: **proved**, `no_ub_key_handlers_unref`
+    (Proof/LifeFrames.lean);
+  * **mouse** events may be delivered to window handlers with any actions as long as no mouse handler claims an event
+    (then no claim is returned and no drag source is ever set): `no_ub_mouse_handlers_unref` (statement, open); with
+    claims and handlers that free nothing it is **proved** (`no_ub_handlers_keeping`); a claiming mouse handler together
+    with handlers that drop the claiming window and its parent is the known finding (`handlers_counterexample`).
 
-  What the two open statements need beyond what is proved.  Proved: through handlers that free nothing
-  Proof/LifeKeys.lean carries `1 + int i ≤ refcount i ≤ appRefs i + int i` (`int i` = references the frames hold on
-  window `i`; `Pres`: nothing is freed); between operations every live window's count is exactly the application's
-  tally (`refcount_inv` (g)), which rests on the converse of `DropOk` (`ConvOk`, Proof/LifeDestroy.lean: a window that
-  survives a cascade and is not among the dropped children keeps its count).  Missing: (1) the invariant of the frames
-  with the stack discipline `int c > 0 → parent c = some p → int p > 0` and the exact count `refcount = appRefs + int`
-  also for the windows the frames hold; (2) the protection lemma for the destroy cascade: started at a window no frame
-  holds it touches no window a frame holds (by induction along the cascade, a dying window having no child a frame
-  holds by the discipline) - then a handler's `tickit_window_unref` keeps the exact counts, because every dropped child
-  is held by the application (count ≥ 1, no frame holds it) so that `consume` and the cascade take the same reference;
-  (3) `Pres` replaced by "every window a frame holds stays alive" and the lemmas of Proof/LifeKeys.lean /
-  LifeMouse.lean (`runBinds_keep`, `keyLoop_keep`, `handleKeyBody_keep`, ...) redone over it.  For mouse events the
-  discipline fails exactly where a claim is returned past the frame of the claiming window's parent. -/
+  What the open statement needs beyond what is proved: the lemmas of Proof/LifeFrames.lean (`FK`: exact counts, held
+  windows alive, stack discipline; `unrefW_FK`: a cascade never reaches a held window; `FK.refI` / `FK.unrefI`) redone
+  for `_handle_mouse` and `on_term_mouse` (Proof/LifeMouse.lean: `mouseLoop`, `handleMouseBody`, `mousePrepare`,
+  `mouseDeliver`), and the invariant "no drag source is set" through every operation of a history in which nothing
+  claims a mouse event. -/
 
 /-- **no_ub with key handlers that drop references**: for every history of operations that deliver no event, `bind` of
     key handlers with **any** actions - `tickit_window_unref` of their own window, of ancestors, of the root window, of
@@ -289,17 +283,17 @@ theorem no_ub_key_handlers_unref : ∀ (ops : List Op) (st : St), SInv .none st 
       exact ⟨st2, by unfold runOps; rw [hs]; exact hr, inv2⟩
 
 /-- OPEN (statement only): key and mouse events delivered to window handlers with any actions, provided that no mouse
-    handler claims the event (the case in which handlers claim and all handlers free nothing is
-    `no_ub_handlers_keeping`; claiming together with dropping contains the known finding). -/
+    handler claims an event and no drag source is set (the case in which handlers claim and all handlers free nothing
+    is `no_ub_handlers_keeping`; claiming together with dropping contains the known finding). -/
 def no_ub_mouse_handlers_unref : Prop :=
-  ∀ (ops : List Op) (st : St), SInv .none st →
+  ∀ (ops : List Op) (st : St), SInv .none st → st.tree.root.dragSource = none →
     (∀ i b, b ∈ (getX st i).binds → b.ev = some .mouse → b.ret = false) →
     (∀ op ∈ ops, (op.plain = true ∨ op.penEvent = true ∨ op = .key ∨ ∃ m, op = .mouse m) ∧
       (∀ w ret acts, op = .bind w .mouse ret acts → ret = false)) →
     ∃ st', runOps extracted st ops = .ok st' ∧ SInv .none st'
 
-/-- Instances of the two open statements that the kernel can evaluate: a key handler that drops its own window, its
-    parent and the root window; a mouse handler that does the same without claiming the event. -/
+/-- Instances the kernel can evaluate: a key handler that drops its own window, its parent and the root window
+    (`no_ub_key_handlers_unref`); a mouse handler that does the same without claiming the event (the open statement). -/
 example : (runOps extracted {} [.newTerm 6 12 false, .win 0 ⟨0, 0, 4, 8⟩ 0, .win 1 ⟨0, 0, 2, 4⟩ 0,
     .bind 2 .key false [.unref 2, .unref 1, .unref 0], .key, .key, .«end»]).isOk = true := by decide +kernel
 
